@@ -270,23 +270,24 @@ theorem powf_real {L T y P E d : ℝ} (hL : |L| ≤ 21) (hy : |y| ≤ 10)
     have := mul_le_mul_of_nonneg_left h2 (by positivity : (0 : ℝ) ≤ 7 / 2 ^ 106)
     linarith
   -- δ = P − y·L
-  have hδ : |P - y * L| ≤ 32001 / 1000 / 2 ^ 106 * |y| + 39001 / 1000 / 2 ^ 106 * (|y| * |L|) + 1 / 2 ^ 950 := by
+  have hδ : |P - y * L| ≤ (1 / 2 ^ 101 + 1 / 2 ^ 200) * |y| + 39001 / 1000 / 2 ^ 106 * (|y| * |L|) + 1 / 2 ^ 950 := by
     have h3 := abs_add_le (P - y * T) (y * T - y * L)
     rw [show P - y * T + (y * T - y * L) = P - y * L by ring] at h3
     have e : (7 : ℝ) / 2 ^ 106 * (|y| * |L| + 1 / 2 ^ 101 * (|y| + |y| * |L|)) + 1 / 2 ^ 950
         + 1 / 2 ^ 101 * (|y| + |y| * |L|)
         = (1 / 2 ^ 101 * (1 + 7 / 2 ^ 106)) * |y| + (7 / 2 ^ 106 + 1 / 2 ^ 101 * (1 + 7 / 2 ^ 106)) * (|y| * |L|)
           + 1 / 2 ^ 950 := by ring
-    have c1 : (1 : ℝ) / 2 ^ 101 * (1 + 7 / 2 ^ 106) ≤ 32001 / 1000 / 2 ^ 106 := by norm_num
+    have c1 : (1 : ℝ) / 2 ^ 101 * (1 + 7 / 2 ^ 106) ≤ 1 / 2 ^ 101 + 1 / 2 ^ 200 := by norm_num
     have c2 : (7 : ℝ) / 2 ^ 106 + 1 / 2 ^ 101 * (1 + 7 / 2 ^ 106) ≤ 39001 / 1000 / 2 ^ 106 := by norm_num
     have := mul_le_mul_of_nonneg_right c1 hya
     have := mul_le_mul_of_nonneg_right c2 (mul_nonneg hya hLa)
     linarith
   have hδs : |P - y * L| ≤ 1 / 2 ^ 92 := by
     refine le_trans hδ ?_
-    have := mul_le_mul_of_nonneg_left hy (by positivity : (0 : ℝ) ≤ 32001 / 1000 / 2 ^ 106)
+    have := mul_le_mul_of_nonneg_left hy (by positivity : (0 : ℝ) ≤ 1 / 2 ^ 101 + 1 / 2 ^ 200)
     have := mul_le_mul_of_nonneg_left hyLb (by positivity : (0 : ℝ) ≤ 39001 / 1000 / 2 ^ 106)
-    have : (32001 : ℝ) / 1000 / 2 ^ 106 * 10 + 39001 / 1000 / 2 ^ 106 * 210 + 1 / 2 ^ 950 ≤ 1 / 2 ^ 92 := by norm_num
+    have : ((1 : ℝ) / 2 ^ 101 + 1 / 2 ^ 200) * 10 + 39001 / 1000 / 2 ^ 106 * 210 + 1 / 2 ^ 950 ≤ 1 / 2 ^ 92 := by
+      norm_num
     linarith
   refine ⟨hδs, ?_⟩
   generalize hδdef : P - y * L = δ at *
@@ -321,11 +322,11 @@ theorem powf_real {L T y P E d : ℝ} (hL : |L| ≤ 21) (hy : |y| ≤ 10)
   have h8 : d * (1 / 2 ^ 91) ≤ 37 / 2 ^ 106 * (1 / 2 ^ 91) := mul_le_mul_of_nonneg_right hd (by positivity)
   have h9 : |δ| ≤ 1 / 2 ^ 101 * |y| + 391 / 10 / 2 ^ 106 * (|y| * |L|) + 1 / 200 / 2 ^ 106 := by
     refine le_trans hδ ?_
-    have a1 : (32001 : ℝ) / 1000 / 2 ^ 106 * |y| = 1 / 2 ^ 101 * |y| + 1 / 1000 / 2 ^ 106 * |y| := by ring
-    have a2 := mul_le_mul_of_nonneg_left hy (by positivity : (0 : ℝ) ≤ 1 / 1000 / 2 ^ 106)
+    have a1 : ((1 : ℝ) / 2 ^ 101 + 1 / 2 ^ 200) * |y| = 1 / 2 ^ 101 * |y| + 1 / 2 ^ 200 * |y| := by ring
+    have a2 := mul_le_mul_of_nonneg_left hy (by positivity : (0 : ℝ) ≤ 1 / 2 ^ 200)
     have a3 : (39001 : ℝ) / 1000 / 2 ^ 106 * (|y| * |L|) ≤ 391 / 10 / 2 ^ 106 * (|y| * |L|) :=
       mul_le_mul_of_nonneg_right (by norm_num) (mul_nonneg hya hLa)
-    have a4 : (1 : ℝ) / 1000 / 2 ^ 106 * 10 + 1 / 2 ^ 950 ≤ 1 / 200 / 2 ^ 106 := by norm_num
+    have a4 : (1 : ℝ) / 2 ^ 200 * 10 + 1 / 2 ^ 950 ≤ 1 / 200 / 2 ^ 106 := by norm_num
     linarith
   rw [hyL]
   have k : d * (1 + 1 / 2 ^ 91) + (|δ| + 1 / 2 ^ 184)
@@ -402,13 +403,10 @@ theorem rv_zero_of_eq_zero {y : TwoFloat} (hv : y.Valid)
 
 theorem rv_one : rv C14.one = 1 := by
   rw [C14.one_words]
-  unfold rv TwoFloat.V
-  have : (F64.one.toInt + F64.zero.toInt : ℤ) = ((unit : ℕ) : ℤ) := by
-    show ((2 ^ 1074 : ℕ) : ℤ) + 0 = _
-    rw [F64.unit_eq]; simp
-  rw [this, F64.unit_eq]
-  push_cast
-  exact div_self (by positivity)
+  unfold rv
+  rw [show (⟨F64.one, F64.zero⟩ : TwoFloat).V = 2 ^ 1074 by decide +kernel]
+  simp only [Int.cast_pow, Int.cast_ofNat]
+  exact div_self (by positivity : ((2 : ℝ) ^ 1074) ≠ 0)
 
 theorem VW_one : VW C14.one := by
   rw [C14.one_words]
@@ -429,7 +427,7 @@ theorem powf_bound_gen (x y : TwoFloat) (hx : VW x) (hy : VW y) (hx1 : 1 / 2 ^ 3
   cases hy0 : base.impl_PartialEq_f64_for_TwoFloat.eq y (f64lit 0x0000000000000000)
   · -- the generic branch
     rw [C14.powf_pos_base x y hx0 hy0 (sign_positive_of_pos hx.1 hpos)]
-    show VW (TwoFloat.exp (arithmetic.impl_Mul_TwoFloat_for_TwoFloat.mul y (TwoFloat.ln x))) ∧ _
+    rw [show (y *. TwoFloat.ln x) = arithmetic.impl_Mul_TwoFloat_for_TwoFloat.mul y (TwoFloat.ln x) from rfl]
     have hL := log_range_30 hx1 hx2
     obtain ⟨hT, hTb⟩ := ln_rv hx (le_trans (by norm_num) hx1) (le_trans hx2 (by norm_num))
     generalize TwoFloat.ln x = T at *
@@ -468,7 +466,7 @@ theorem powf_bound_gen (x y : TwoFloat) (hx : VW x) (hy : VW y) (hx1 : 1 / 2 ^ 3
         have hd0 : (0 : ℝ) ≤ d := by rw [h]; positivity
         have hd37 : d ≤ 37 / 2 ^ 106 := by rw [h]
         obtain ⟨hδ, -⟩ := powf_real hL hyb hTb hPb hd0 hd37 hEb
-        obtain ⟨-, δ2⟩ := abs_le.1 hδ
+        obtain ⟨δ1, -⟩ := abs_le.1 hδ
         have : (1 : ℝ) / 2 ^ 92 ≤ 1 / 10000 := by norm_num
         linarith
     · have hd0 : (0 : ℝ) ≤ d := by rcases hd with h | ⟨h, -⟩ <;> (rw [h]; positivity)
@@ -480,6 +478,7 @@ theorem powf_bound_gen (x y : TwoFloat) (hx : VW x) (hy : VW y) (hx1 : 1 / 2 ^ 3
     refine ⟨VW_one, 21 / 2 ^ 106, Or.inl rfl, ?_⟩
     rw [hw0, rv_one]
     simp
+    positivity
 
 end powf_tf
 
